@@ -219,6 +219,25 @@ def disp2eig_obligations(chk, d2e, tier, rng):
             chk.violation("disp2eig:complex-norm", "complex displacement rows are not normalised with the Hermitian norm", {})
         else:
             chk.inconclusive(name, "complex-pair model not executable (%s)" % ex_)
+    # dtype twin: integer-valued displacement vectors (array or nested list) are displacement vectors of arbitrary norm like any other
+    ints = [[1, 0, 0, -1, 0, 0], [2, 0, 0, 3, 0, 0]]
+    masses = [24.305, 15.999]
+    try:
+        ref = d2e.evec_disp2eig(numpy.array(ints, dtype=float), masses)
+        for label, arg in (("integer array", numpy.array(ints)), ("nested list of ints", ints)):
+            try:
+                got = d2e.evec_disp2eig(arg, masses)
+                if numpy.abs(numpy.asarray(got, dtype=float) - ref).max() > 1e-12:
+                    chk.violation("disp2eig:int-dtype", "evec_disp2eig gives another result for an %s than for the same vectors as floats" % label, dict(a=ints, mass=masses))
+                    break
+            except Exception as e:
+                chk.violation("disp2eig:int-dtype", "evec_disp2eig raises %s: %s for integer-valued displacement vectors given as an %s (the same vectors as floats work)"
+                              % (type(e).__name__, str(e)[:100], label), dict(a=ints, mass=masses))
+                break
+        else:
+            chk.side_check("dtype twin: integer-valued displacement vectors == the same as floats", True)
+    except Exception as e:
+        chk.note("dtype twin not executed: %s" % e)
     # dimension mismatches: the second dimension must be 3 x (number of masses) -- also when the element count happens to be divisible by it
     accepted = []
     for shape, nm in (((2, 5), 2), ((3, 6), 3), ((6, 6), 3), ((4, 3), 2), ((2, 12), 2), ((1, 3), 2), ((9, 4), 3)):
